@@ -50,9 +50,9 @@ type Op struct {
 	Fault         *Fault   `json:"fault,omitempty"`
 	CancelAfterMs int      `json:"cancelAfterMs,omitempty"` // cancel the context this long after the request reached the broker (or after the call began when nothing is held)
 	DeadlineMs    int      `json:"deadlineMs,omitempty"`    // context.WithTimeout
-	CancelBlind   bool     `json:"cancelBlind,omitempty"` // cancel cancelAfterMs after the call began, without waiting for its request to reach a broker
-	MustSucceed   bool     `json:"mustSucceed,omitempty"` // nothing is wrong with this call: it must return its own response
-	ExpectCtx     bool     `json:"expectCtx,omitempty"` // nothing but the end of the context can make this call return (a wire fault holds what it waits for)
+	CancelBlind   bool     `json:"cancelBlind,omitempty"`   // cancel cancelAfterMs after the call began, without waiting for its request to reach a broker
+	MustSucceed   bool     `json:"mustSucceed,omitempty"`   // nothing is wrong with this call: it must return its own response
+	ExpectCtx     bool     `json:"expectCtx,omitempty"`     // nothing but the end of the context can make this call return (a wire fault holds what it waits for)
 }
 
 type Move struct {
@@ -83,18 +83,18 @@ type TopicSpec struct {
 }
 
 type Script struct {
-	ID      string                      `json:"id"`
-	Kind    string                      `json:"kind"` // c12 c06 c17 c09
-	Brokers []int                       `json:"brokers"`
-	Boot    []int                       `json:"boot"`
-	Topics  []TopicSpec                 `json:"topics"`
-	Coord   int                         `json:"coord"`
-	Txn     int                         `json:"txn"`
-	Ctrlr   int                         `json:"ctrlr"`
-	VTab    map[string]map[string][]int `json:"vtab"` // broker id -> api name -> [min, max]; missing broker: "0"; missing api: the fake's default
-	TTLMs   int                         `json:"ttlMs"`
-	IdleMs  int                         `json:"idleMs"`
-	MetaTopics []string                 `json:"metaTopics,omitempty"`
-	WFaults []WFault                    `json:"wfaults,omitempty"`
-	Steps   []Step                      `json:"steps"`
+	ID         string                      `json:"id"`
+	Kind       string                      `json:"kind"` // c12 c06 c17 c09
+	Brokers    []int                       `json:"brokers"`
+	Boot       []int                       `json:"boot"`
+	Topics     []TopicSpec                 `json:"topics"`
+	Coord      int                         `json:"coord"`
+	Txn        int                         `json:"txn"`
+	Ctrlr      int                         `json:"ctrlr"`
+	VTab       map[string]map[string][]int `json:"vtab"` // broker id -> api name -> [min, max]; missing broker: "0"; missing api: the fake's default
+	TTLMs      int                         `json:"ttlMs"`
+	IdleMs     int                         `json:"idleMs"`
+	MetaTopics []string                    `json:"metaTopics,omitempty"`
+	WFaults    []WFault                    `json:"wfaults,omitempty"`
+	Steps      []Step                      `json:"steps"`
 }
